@@ -500,3 +500,103 @@ def gc_flex_episode(seed):
         del inst, d, op, x
         gc.collect()
     return out
+
+
+def self_unsub_episode(seed):
+    """User observers that change the subscriber list from INSIDE their callbacks: a one-shot observer that unsubscribes itself
+    in `update()` (or in `reset()`), at any position among the subscribers.  Every observer that stays subscribed all along is
+    notified of every accepted dispatch exactly once, in order (the history observer's record is the dispatch sequence, each reward
+    observer holds one reward per dispatch), and of every reset once; the one that left receives nothing afterwards.
+    Returns {"C10": [...], "C02": [...], "C13": [...]}."""
+    import random
+    import gen
+    import jsl
+    from impl import build_instance
+    from job_shop_lib.reinforcement_learning import MakespanReward, IdleTimeReward
+    r = random.Random(seed)
+    _, jobs = gen.gen_instance(r, r.choice(["classic", "irregular", "recirc", "flexible", "ties"]), max_jobs=3, max_machines=3, max_ops=3)
+    inst = build_instance(jobs)
+    d = jsl.Dispatcher(inst)
+    out = {"C10": [], "C02": [], "C13": []}
+    total = gen.num_ops(jobs)
+    fire_at = r.randint(1, max(1, total - 1))
+    on_reset = r.random() < 0.3
+
+    class Counter(jsl.DispatcherObserver):
+        _is_singleton = False
+
+        def __init__(self, dispatcher):
+            super().__init__(dispatcher)
+            self.seen, self.resets = [], 0
+
+        def update(self, scheduled_operation):
+            self.seen.append(scheduled_operation.operation.operation_id)
+
+        def reset(self):
+            self.resets += 1
+            self.seen = []
+
+    class OneShot(Counter):
+        """e.g. a trigger that waits for some event and then retires"""
+        left = False
+
+        def update(self, scheduled_operation):
+            if self.left:
+                out["C10"].append(("unsubscribed-notified", "an observer that unsubscribed itself was notified of a later dispatch"))
+            super().update(scheduled_operation)
+            if not on_reset and len(self.seen) == fire_at:
+                self.dispatcher.unsubscribe(self)
+                self.left = True
+
+        def reset(self):
+            if self.left:
+                out["C10"].append(("unsubscribed-notified", "an observer that unsubscribed itself was notified of a later reset"))
+            super().reset()
+            if on_reset and not self.left:
+                self.dispatcher.unsubscribe(self)
+                self.left = True
+
+    # the one-shot observer at a random position among the others
+    makers = [lambda: Counter(d), lambda: jsl.HistoryObserver(d), lambda: MakespanReward(d), lambda: IdleTimeReward(d), lambda: Counter(d)]
+    r.shuffle(makers)
+    pos = r.randrange(len(makers) + 1)
+    stay = []
+    for k, mk in enumerate(makers):
+        if k == pos:
+            OneShot(d)
+        stay.append(mk())
+    if pos == len(makers):
+        OneShot(d)
+    what = (f"a one-shot observer at position {pos} of {len(makers) + 1} subscribers unsubscribes itself inside "
+            f"{'reset()' if on_reset else f'update() at dispatch {fire_at}'}")
+    for ep in range(2):
+        tr = gen.Tracker(jobs)
+        done = []
+        n_stop = total if ep else r.randint(1, total)
+        while len(done) < n_stop:
+            j, p, m = gen_req = gen.gen_valid_request(r, tr)
+            op = inst.jobs[j][p]
+            d.dispatch(op, None if m == "none" else int(m))
+            tr.take(j)
+            done.append(op.operation_id)
+            for o in stay:
+                if isinstance(o, Counter) and o.seen != done:
+                    out["C10"].append(("missed", f"{what}: an observer that stayed subscribed saw the dispatches {o.seen}, the accepted "
+                                       f"dispatches are {done}"))
+                if isinstance(o, jsl.HistoryObserver):
+                    rec = [x.operation.operation_id for x in o.history]
+                    if rec != done:
+                        out["C10"].append(("history", f"{what}: the history observer recorded {rec}, the dispatch sequence is {done}"))
+                        out["C02"].append(("history", f"{what}: the recorded history {rec} is not the dispatch sequence {done}"))
+                if isinstance(o, (MakespanReward, IdleTimeReward)) and len(o.rewards) != len(done):
+                    out["C13"].append(("count", f"{what}: {type(o).__name__} holds {len(o.rewards)} rewards after {len(done)} accepted dispatches"))
+            if any(out.values()):
+                return {k: v[:2] for k, v in out.items()}
+        if ep == 0:
+            before = [o.resets for o in stay if isinstance(o, Counter)]
+            d.reset()
+            after = [o.resets for o in stay if isinstance(o, Counter)]
+            if [b + 1 for b in before] != after:
+                out["C10"].append(("reset-missed", f"{what}: reset() notified the observers that stayed subscribed {[a - b for a, b in zip(after, before)]} times"))
+                return out
+    return out
